@@ -131,8 +131,16 @@ func (mt *MemTopics) Retained(topic []byte, msgs *[]*message.PublishMessage) err
 
 // Close implements Provider.
 func (mt *MemTopics) Close() error {
-	mt.sroot = nil
-	mt.rroot = nil
+	// Connections may still be using the provider while the server shuts down:
+	// empty the trees under their locks instead of pulling them away.
+	mt.smu.Lock()
+	mt.sroot = newSNode()
+	mt.smu.Unlock()
+
+	mt.rmu.Lock()
+	mt.rroot = newRNode()
+	mt.rmu.Unlock()
+
 	return nil
 }
 
